@@ -146,6 +146,24 @@ theorem spec_extends_CInt (e : Spec.CInt.Expr) (ρ : Nat → Int) :
     typeOf (Spec.CExpr.ofConst e) = Spec.CInt.typeOf e ∧ eval ρ (Spec.CExpr.ofConst e) = Spec.CInt.eval e :=
   ⟨Proofs.CExpr.typeOf_ofConst e, Proofs.CExpr.eval_ofConst ρ e⟩
 
+
+/-- full statements (every expression, `sizeof` included).  NOT shown — false: `sizeof` is typed `long` by ppci
+    (open finding `ctype:sizeof:signed`); the `_partial` theorems above exclude exactly the expressions that contain a
+    `sizeof` (slightly more than the failing region: e.g. `(int)sizeof(int)` is compiled correctly all the same). -/
+def typing_agrees_full : Prop :=
+  ∀ (e : Expr) (σ : STy), typeOf e = some σ → ∃ t, elaborate (toSrc e) = some t ∧ t.ty = M σ
+
+def values_agree_full : Prop :=
+  ∀ (e : Expr) (σ : STy), typeOf e = some σ → ∃ t, elaborate (toSrc e) = some t ∧ t.ty = M σ ∧
+    ∀ (ρ : Nat → Int) (v : Int), eval ρ e = some v → ieval ρ (lower t) = some v
+
+example : ¬ typing_agrees_full := by
+  intro h
+  obtain ⟨t, h1, h2⟩ := h (.szof 4) .ulong (by decide)
+  simp only [toSrc, elaborate, Option.some.injEq] at h1
+  subst h1
+  revert h2; decide
+
 /-! ### non-vacuity and the defects repaired by 21f7d05 -/
 
 /-- the hypotheses of the value theorem are satisfiable by a non-trivial input:
